@@ -150,19 +150,54 @@ theorem vrWords_lt (vr : VR) (hvr : VROk vr) (fmt : Nat) : ∀ w ∈ vrWords vr 
       | some x => simpa using hvr.2 x (List.mem_of_getElem? h)
   · simp at hk
 
+/-- the number of words written for a record is the number of bits of the format -/
+theorem vrWords_length (vr : VR) (fmt : Nat) (hflt : fmt < 256) :
+    (vrWords vr fmt).length = popcount16 fmt := by
+  unfold vrWords popcount16
+  have e16 : List.range 16 = List.range 8 ++ List.range' 8 8 := by decide
+  rw [e16, List.filter_append]
+  have hhigh : (List.range' 8 8).filter (bit fmt) = [] := by
+    rw [List.filter_eq_nil_iff]
+    intro k hk
+    rw [List.mem_range'] at hk
+    obtain ⟨i, hi, rfl⟩ := hk
+    have e : 8 + 1 * i = 8 + i := by omega
+    rw [e]
+    have : fmt / 2 ^ (8 + i) = 0 := by
+      apply Nat.div_eq_of_lt
+      calc fmt < 256 := hflt
+        _ = 2 ^ 8 := by decide
+        _ ≤ 2 ^ (8 + i) := Nat.pow_le_pow_right (by decide) (by omega)
+    simp [bit, this]
+  rw [hhigh, List.append_nil]
+  induction (List.range 8) with
+  | nil => rfl
+  | cons a l ih =>
+    simp only [List.filterMap_cons, List.filter_cons]
+    by_cases hb : bit fmt a = true
+    · simp [hb, ih]
+    · simp [hb, ih]
+
 /-! ### GPOS 1.1 -/
 
 theorem roundtrip11 (rev : List Nat) (h : Cov.Valid rev) (vr : VR) (hvr : VROk vr) :
-    ∃ b, encode11 rev vr = .ok b ∧ readSubtable 1 b = .ok (.s11 rev.zipIdx vr) := by
+    ∃ b, encode11 rev vr = .ok b ∧ readSubtable 1 b = .ok (.s11 rev.zipIdx vr) ∧
+      encodeLen11 rev vr = .ok b.length := by
   have hflt := getFormat_lt vr
   have hpc : popcount16 (getFormat vr) ≤ 16 := by
     unfold popcount16
     exact Nat.le_trans (List.length_filter_le _ _) (by simp)
   refine ⟨wordsToBytes (1 :: (6 + vrLen (getFormat vr)) :: getFormat vr :: vrWords vr (getFormat vr)) ++
-    wordsToBytes (Cov.encodeW rev), ?_, ?_⟩
+    wordsToBytes (Cov.encodeW rev), ?_, ?_, ?_⟩
   · simp only [encode11, Cov.encode_eq rev h]
     rw [w16_of_lt (by unfold vrLen; omega)]
     rfl
+  rotate_left
+  · have hcount := vrWords_length vr (getFormat vr) hflt
+    simp only [encodeLen11, Cov.encodeLen_eq rev h, List.length_append, length_wordsToBytes,
+      ← Cov.encodeW_length rev h, List.length_cons, hcount, vrLen]
+    congr 1
+    omega
   · have hlt : ∀ w ∈ 1 :: (6 + vrLen (getFormat vr)) :: getFormat vr :: vrWords vr (getFormat vr),
         w < 65536 := by
       intro w hw
@@ -178,32 +213,7 @@ theorem roundtrip11 (rev : List Nat) (h : Cov.Valid rev) (vr : VR) (hvr : VROk v
           (vrWords vr (getFormat vr) ++ Cov.encodeW rev) := by
       rw [bytesToWords_append _ hlt, bytesToWords_wordsToBytes _ (Cov.encodeW_lt rev h)]
       rfl
-    -- the number of words written for the record is the number of bits of its format
-    have hcount : (vrWords vr (getFormat vr)).length = popcount16 (getFormat vr) := by
-      unfold vrWords popcount16
-      have e16 : List.range 16 = List.range 8 ++ List.range' 8 8 := by decide
-      rw [e16, List.filter_append]
-      have hhigh : (List.range' 8 8).filter (bit (getFormat vr)) = [] := by
-        rw [List.filter_eq_nil_iff]
-        intro k hk
-        rw [List.mem_range'] at hk
-        obtain ⟨i, hi, rfl⟩ := hk
-        have e : 8 + 1 * i = 8 + i := by omega
-        rw [e]
-        have : getFormat vr / 2 ^ (8 + i) = 0 := by
-          apply Nat.div_eq_of_lt
-          calc getFormat vr < 256 := hflt
-            _ = 2 ^ 8 := by decide
-            _ ≤ 2 ^ (8 + i) := Nat.pow_le_pow_right (by decide) (by omega)
-        simp [bit, this]
-      rw [hhigh, List.append_nil]
-      induction (List.range 8) with
-      | nil => rfl
-      | cons a l ih =>
-        simp only [List.filterMap_cons, List.filter_cons]
-        by_cases hb : bit (getFormat vr) a = true
-        · simp [hb, ih]
-        · simp [hb, ih]
+    have hcount := vrWords_length vr (getFormat vr) hflt
     have hdrop : (wordsToBytes (1 :: (6 + vrLen (getFormat vr)) :: getFormat vr ::
         vrWords vr (getFormat vr)) ++ wordsToBytes (Cov.encodeW rev)).drop (6 + vrLen (getFormat vr)) =
         wordsToBytes (Cov.encodeW rev) := by
@@ -219,5 +229,446 @@ theorem roundtrip11 (rev : List Nat) (h : Cov.Valid rev) (vr : VR) (hvr : VROk v
     simp only [readSubtable, hw, read11, vrRead_spec, hdrop, hrd,
       masked_of_covers vr hvr _ (getFormat_eq_zero vr) (getFormat_covers vr)]
     simp
+
+theorem getFormat_some_bit (vr : VR) (hne : vr ≠ none) : ∃ k, k < 8 ∧ bit (getFormat vr) k = true := by
+  cases vr with
+  | none => exact absurd rfl hne
+  | some fs =>
+    unfold getFormat
+    dsimp only
+    split
+    · exact ⟨2, by decide, by decide⟩
+    · rename_i hnz
+      -- some field is non-zero, otherwise the sum would be zero
+      have hex : ∃ k, k < 8 ∧ (field (some fs) k != 0) = true := by
+        apply Classical.byContradiction
+        intro hno
+        have hall : ∀ k, k < 8 → (field (some fs) k != 0) = false := by
+          intro k hk
+          cases hb : (field (some fs) k != 0) with
+          | false => rfl
+          | true => exact absurd ⟨k, hk, hb⟩ hno
+        apply hnz
+        have e : (List.range 8).map (fun k => if (field (some fs) k != 0) = true then 2 ^ k else 0) =
+            [if (field (some fs) 0 != 0) = true then 1 else 0, if (field (some fs) 1 != 0) = true then 2 else 0,
+             if (field (some fs) 2 != 0) = true then 4 else 0, if (field (some fs) 3 != 0) = true then 8 else 0,
+             if (field (some fs) 4 != 0) = true then 16 else 0, if (field (some fs) 5 != 0) = true then 32 else 0,
+             if (field (some fs) 6 != 0) = true then 64 else 0, if (field (some fs) 7 != 0) = true then 128 else 0] := by
+          rfl
+        rw [e, hall 0 (by decide), hall 1 (by decide), hall 2 (by decide), hall 3 (by decide),
+          hall 4 (by decide), hall 5 (by decide), hall 6 (by decide), hall 7 (by decide)]
+        rfl
+      obtain ⟨k, hk, hc⟩ := hex
+      refine ⟨k, hk, ?_⟩
+      rw [bit_sum8 (fun j => field (some fs) j != 0) k hk]
+      exact hc
+
+/-! ### GPOS 1.2 -/
+
+theorem orFormat_lt (vrs : List VR) : orFormat vrs < 256 :=
+  sum8_lt (fun k => vrs.any (fun vr => bit (getFormat vr) k))
+
+theorem orFormat_covers (vrs : List VR) (vr : VR) (h : vr ∈ vrs) : Covers (orFormat vrs) vr := by
+  intro k hk hne
+  unfold orFormat
+  rw [bit_sum8 (fun k => vrs.any (fun vr => bit (getFormat vr) k)) k hk]
+  simp only [List.any_eq_true]
+  exact ⟨vr, h, getFormat_covers vr k hk hne⟩
+
+theorem vrReadN_spec (fmt : Nat) (tail : List Nat) : ∀ (vrs : List VR),
+    vrReadN fmt vrs.length (vrs.flatMap (fun vr => vrWords vr fmt) ++ tail) =
+      .ok (vrs.map (fun vr => masked vr fmt), tail)
+  | [] => rfl
+  | vr :: vrs => by
+    simp only [List.length_cons, List.flatMap_cons, List.append_assoc, vrReadN, vrRead_spec,
+      vrReadN_spec fmt tail vrs, List.map_cons]
+
+theorem flatMap_vrWords_length (fmt : Nat) (hf : fmt < 256) : ∀ (vrs : List VR),
+    (vrs.flatMap (fun vr => vrWords vr fmt)).length = popcount16 fmt * vrs.length
+  | [] => by simp
+  | vr :: vrs => by
+    simp only [List.flatMap_cons, List.length_append, vrWords_length vr fmt hf,
+      flatMap_vrWords_length fmt hf vrs, List.length_cons]
+    rw [Nat.mul_succ]; omega
+
+theorem roundtrip12 (rev : List Nat) (h : Cov.Valid rev) (vrs : List VR) (hl : vrs.length = rev.length)
+    (hvr : ∀ vr ∈ vrs, VROk vr) (hn : vrs.length < 65536)
+    (hfit : 8 + vrLen (orFormat vrs) * vrs.length ≤ 0xFFFF) :
+    ∃ b, encode12 rev vrs = .ok b ∧
+      readSubtable 1 b = .ok (.s12 rev.zipIdx (vrs.map fun vr => masked vr (orFormat vrs))) ∧
+      encodeLen12 rev vrs = .ok b.length := by
+  have hflt := orFormat_lt vrs
+  have hcount := flatMap_vrWords_length (orFormat vrs) hflt vrs
+  have hmul : vrLen (orFormat vrs) * vrs.length = 2 * (popcount16 (orFormat vrs) * vrs.length) := by
+    unfold vrLen; rw [Nat.mul_assoc]
+  refine ⟨wordsToBytes (2 :: (8 + vrLen (orFormat vrs) * vrs.length) :: orFormat vrs :: vrs.length ::
+    vrs.flatMap (fun vr => vrWords vr (orFormat vrs))) ++ wordsToBytes (Cov.encodeW rev), ?_, ?_, ?_⟩
+  · simp only [encode12, Cov.encodeLen_eq rev h, Cov.encode_eq rev h]
+    rw [if_neg (by omega), w16_of_lt (by omega), w16_of_lt hn]
+    rfl
+  rotate_left
+  · simp only [encodeLen12, Cov.encodeLen_eq rev h, List.length_append, length_wordsToBytes,
+      ← Cov.encodeW_length rev h, List.length_cons, hcount, hmul]
+    congr 1
+    omega
+  · have hlt : ∀ w ∈ 2 :: (8 + vrLen (orFormat vrs) * vrs.length) :: orFormat vrs :: vrs.length ::
+        vrs.flatMap (fun vr => vrWords vr (orFormat vrs)), w < 65536 := by
+      intro w hw
+      simp only [List.mem_cons, List.mem_flatMap] at hw
+      rcases hw with rfl | rfl | rfl | rfl | ⟨vr, hv, hw⟩
+      · decide
+      · omega
+      · omega
+      · exact hn
+      · exact vrWords_lt vr (hvr vr hv) _ w hw
+    have hw : bytesToWords (wordsToBytes (2 :: (8 + vrLen (orFormat vrs) * vrs.length) :: orFormat vrs ::
+        vrs.length :: vrs.flatMap (fun vr => vrWords vr (orFormat vrs))) ++
+        wordsToBytes (Cov.encodeW rev)) =
+        2 :: (8 + vrLen (orFormat vrs) * vrs.length) :: orFormat vrs :: vrs.length ::
+          (vrs.flatMap (fun vr => vrWords vr (orFormat vrs)) ++ Cov.encodeW rev) := by
+      rw [bytesToWords_append _ hlt, bytesToWords_wordsToBytes _ (Cov.encodeW_lt rev h)]
+      rfl
+    have hdrop : (wordsToBytes (2 :: (8 + vrLen (orFormat vrs) * vrs.length) :: orFormat vrs ::
+        vrs.length :: vrs.flatMap (fun vr => vrWords vr (orFormat vrs))) ++
+        wordsToBytes (Cov.encodeW rev)).drop (8 + vrLen (orFormat vrs) * vrs.length) =
+        wordsToBytes (Cov.encodeW rev) := by
+      have e : 8 + vrLen (orFormat vrs) * vrs.length = 2 * (2 :: (8 + vrLen (orFormat vrs) * vrs.length) ::
+          orFormat vrs :: vrs.length :: vrs.flatMap (fun vr => vrWords vr (orFormat vrs))).length := by
+        simp only [List.length_cons, hcount, hmul]
+        omega
+      generalize hG : 8 + vrLen (orFormat vrs) * vrs.length = off at e ⊢
+      rw [e]
+      exact drop_wordsToBytes_append _ _
+    have hrd : Cov.read (wordsToBytes (Cov.encodeW rev)) = .ok rev.zipIdx := by
+      unfold Cov.read
+      rw [bytesToWords_wordsToBytes _ (Cov.encodeW_lt rev h)]
+      exact (Cov.readW_encodeW rev h).1
+    simp only [readSubtable, hw, read12, vrReadN_spec, hdrop, hrd]
+    have hp : prune rev.zipIdx (vrs.map fun vr => masked vr (orFormat vrs)) =
+        (rev.zipIdx, vrs.map fun vr => masked vr (orFormat vrs)) := by
+      unfold prune
+      have : (vrs.map fun vr => masked vr (orFormat vrs)).length = rev.zipIdx.length := by simp [hl]
+      rw [if_neg (by omega), if_neg (by omega)]
+    rw [hp]
+    simp
+
+/-- every record of the subtable comes back unchanged if all of them are non-nil (or all nil) -/
+theorem masked_id_of_uniform (vrs : List VR) (hvr : ∀ vr ∈ vrs, VROk vr)
+    (hu : (∀ vr ∈ vrs, vr = none) ∨ (∀ vr ∈ vrs, vr ≠ none)) :
+    vrs.map (fun vr => masked vr (orFormat vrs)) = vrs := by
+  have hz : orFormat vrs = 0 ↔ ∀ vr ∈ vrs, vr = none := by
+    constructor
+    · intro h0 vr hv
+      apply Classical.byContradiction
+      intro hne
+      have := getFormat_some_bit vr hne
+      obtain ⟨k, hk, hb⟩ := this
+      have : bit (orFormat vrs) k = true := by
+        unfold orFormat
+        rw [bit_sum8 (fun k => vrs.any (fun vr => bit (getFormat vr) k)) k hk]
+        simp only [List.any_eq_true]
+        exact ⟨vr, hv, hb⟩
+      rw [h0] at this
+      simp [bit] at this
+    · intro hall
+      unfold orFormat
+      have : ∀ k, (vrs.any fun vr => bit (getFormat vr) k) = false := by
+        intro k
+        rw [List.any_eq_false]
+        intro vr hv
+        rw [hall vr hv]
+        simp [getFormat, bit]
+      simp only [this, Bool.false_eq_true, if_false]
+      decide
+  have hmap : vrs.map (fun vr => masked vr (orFormat vrs)) = vrs.map id := by
+    apply List.map_congr_left
+    intro vr hv
+    apply masked_of_covers vr (hvr vr hv) _ _ (orFormat_covers vrs vr hv)
+    constructor
+    · intro h0; exact hz.mp h0 vr hv
+    · intro hn
+      rcases hu with hu | hu
+      · exact hz.mpr hu
+      · exact absurd hn (hu vr hv)
+  simpa using hmap
+
+/-! ### GPOS 2.1 -/
+
+/-- what a pair set reads back as under the common value formats -/
+def normSet (f1 f2 : Nat) (s : PairSet) : PairSet := s.map fun p => (p.1, masked p.2.1 f1, masked p.2.2 f2)
+
+/-- all glyph ids and value records of a pair set are well-typed -/
+def PairSetOk (s : PairSet) : Prop := ∀ p ∈ s, p.1 < 65536 ∧ VROk p.2.1 ∧ VROk p.2.2
+
+theorem readPairs_spec (f1 f2 : Nat) (tail : List Nat) : ∀ (s : PairSet),
+    readPairs f1 f2 s.length
+      (s.flatMap (fun p => p.1 :: (vrWords p.2.1 f1 ++ vrWords p.2.2 f2)) ++ tail) =
+      .ok (normSet f1 f2 s)
+  | [] => rfl
+  | p :: s => by
+    simp only [List.length_cons, List.flatMap_cons, List.cons_append, List.append_assoc, readPairs,
+      vrRead_spec, readPairs_spec f1 f2 tail s, normSet, List.map_cons]
+
+theorem pairSetWords_lt (f1 f2 : Nat) (s : PairSet) (h : PairSetOk s) :
+    ∀ w ∈ pairSetWords f1 f2 s, w < 65536 := by
+  intro w hw
+  simp only [pairSetWords, List.mem_cons, List.mem_flatMap, List.mem_append] at hw
+  rcases hw with rfl | ⟨p, hp, rfl | hw | hw⟩
+  · exact w16_lt _
+  · exact (h p hp).1
+  · exact vrWords_lt _ (h p hp).2.1 _ w hw
+  · exact vrWords_lt _ (h p hp).2.2 _ w hw
+
+theorem pairSetWords_length (f1 f2 : Nat) (h1 : f1 < 256) (h2 : f2 < 256) (s : PairSet) :
+    2 * (pairSetWords f1 f2 s).length = pairSetLen f1 f2 s := by
+  have : ∀ (s : PairSet), (s.flatMap fun p => p.1 :: (vrWords p.2.1 f1 ++ vrWords p.2.2 f2)).length =
+      s.length * (1 + popcount16 f1 + popcount16 f2) := by
+    intro s
+    induction s with
+    | nil => simp
+    | cons p s ih =>
+      simp only [List.flatMap_cons, List.length_append, List.length_cons, ih,
+        vrWords_length _ f1 h1, vrWords_length _ f2 h2, Nat.succ_mul]
+      omega
+  simp only [pairSetWords, List.length_cons, this, pairSetLen, vrLen]
+  have e1 : s.length * (2 * popcount16 f1) = 2 * (s.length * popcount16 f1) := by
+    rw [Nat.mul_left_comm]
+  have e2 : s.length * (2 * popcount16 f2) = 2 * (s.length * popcount16 f2) := by
+    rw [Nat.mul_left_comm]
+  have e3 : s.length * (2 + 2 * popcount16 f1 + 2 * popcount16 f2) =
+      2 * s.length + 2 * (s.length * popcount16 f1) + 2 * (s.length * popcount16 f2) := by
+    rw [Nat.mul_add, Nat.mul_add, e1, e2]; omega
+  have e4 : s.length * (1 + popcount16 f1 + popcount16 f2) =
+      s.length + s.length * popcount16 f1 + s.length * popcount16 f2 := by
+    rw [Nat.mul_add, Nat.mul_add]; omega
+  rw [e3, e4]
+  omega
+
+theorem pairOffsets_spec (f1 f2 : Nat) : ∀ (sets : List PairSet) (total : Nat) (offs : List Nat),
+    pairOffsets f1 f2 sets total = .ok offs →
+    offs.length = sets.length ∧ (∀ o ∈ offs, o < 65536) ∧
+    (sets ≠ [] → total ≤ 0xFFFF)
+  | [], _, offs, h => by simp [pairOffsets] at h; subst h; simp
+  | s :: ss, total, offs, h => by
+    simp only [pairOffsets] at h
+    split at h
+    · simp at h
+    · rename_i hle
+      cases h2 : pairOffsets f1 f2 ss (total + pairSetLen f1 f2 s) with
+      | ok r =>
+        rw [h2] at h
+        simp only [Outcome.ok.injEq] at h
+        subst h
+        obtain ⟨i1, i2, _⟩ := pairOffsets_spec f1 f2 ss _ r h2
+        refine ⟨by simp [i1], ?_, fun _ => by omega⟩
+        intro o ho
+        rw [List.mem_cons] at ho
+        rcases ho with rfl | ho
+        · omega
+        · exact i2 o ho
+      | err e => rw [h2] at h; simp at h
+      | panic s' => rw [h2] at h; simp at h
+
+/-- every pair set is found at the offset the encoder wrote for it -/
+theorem readPairSets_spec (f1 f2 : Nat) (h1 : f1 < 256) (h2 : f2 < 256) (c : Bytes) :
+    ∀ (sets : List PairSet) (P T : List Nat) (offs : List Nat),
+    (∀ w ∈ P, w < 65536) → (∀ w ∈ T, w < 65536) → (∀ s ∈ sets, PairSetOk s ∧ s.length < 65536) →
+    pairOffsets f1 f2 sets (2 * P.length) = .ok offs →
+    readPairSets (wordsToBytes (P ++ (sets.flatMap (pairSetWords f1 f2) ++ T)) ++ c) f1 f2 offs =
+      .ok (sets.map (normSet f1 f2))
+  | [], _, _, offs, _, _, _, ho => by
+    simp [pairOffsets] at ho
+    subst ho
+    rfl
+  | s :: ss, P, T, offs, hP, hT, hS, ho => by
+    simp only [pairOffsets] at ho
+    split at ho
+    · simp at ho
+    · cases ho2 : pairOffsets f1 f2 ss (2 * P.length + pairSetLen f1 f2 s) with
+      | err e => rw [ho2] at ho; simp at ho
+      | panic s' => rw [ho2] at ho; simp at ho
+      | ok r =>
+        rw [ho2] at ho
+        simp only [Outcome.ok.injEq] at ho
+        subst ho
+        obtain ⟨hsok, hsl⟩ := hS s (by simp)
+        have hlt : ∀ w ∈ (s :: ss).flatMap (pairSetWords f1 f2) ++ T, w < 65536 := by
+          intro w hw
+          rw [List.mem_append, List.mem_flatMap] at hw
+          rcases hw with ⟨s', hs', hw⟩ | hw
+          · exact pairSetWords_lt f1 f2 s' (hS s' hs').1 w hw
+          · exact hT w hw
+        have hwords : bytesToWords ((wordsToBytes (P ++ ((s :: ss).flatMap (pairSetWords f1 f2) ++ T)) ++ c).drop
+            (2 * P.length)) = s.length ::
+              (s.flatMap (fun p => p.1 :: (vrWords p.2.1 f1 ++ vrWords p.2.2 f2)) ++
+                (ss.flatMap (pairSetWords f1 f2) ++ (T ++ bytesToWords c))) := by
+          rw [drop_wordsToBytes_append', bytesToWords_append _ hlt]
+          simp [pairSetWords, w16_of_lt hsl]
+        have ih := readPairSets_spec f1 f2 h1 h2 c ss (P ++ pairSetWords f1 f2 s) T r
+          (by intro w hw
+              rw [List.mem_append] at hw
+              rcases hw with hw | hw
+              · exact hP w hw
+              · exact pairSetWords_lt f1 f2 s hsok w hw)
+          hT (fun s' hs' => hS s' (by simp [hs']))
+          (by have := pairSetWords_length f1 f2 h1 h2 s
+              simp only [List.length_append]
+              rw [Nat.mul_add, this]
+              exact ho2)
+        have e2 : (P ++ pairSetWords f1 f2 s) ++ (ss.flatMap (pairSetWords f1 f2) ++ T) =
+            P ++ ((s :: ss).flatMap (pairSetWords f1 f2) ++ T) := by simp
+        rw [e2] at ih
+        generalize wordsToBytes (P ++ ((s :: ss).flatMap (pairSetWords f1 f2) ++ T)) ++ c = b at hwords ih ⊢
+        simp only [readPairSets, hwords, readPairs_spec, ih, List.map_cons]
+
+theorem roundtrip21 (firsts : List Nat) (h : Cov.Valid firsts) (sets : List PairSet)
+    (hl : sets.length = firsts.length) (hS : ∀ s ∈ sets, PairSetOk s ∧ s.length < 65536)
+    (b : Bytes) (hb : encode21 firsts sets = .ok b) :
+    readSubtable 2 b =
+      .ok (.s21 firsts.zipIdx (sets.map (normSet (orFormat1 sets) (orFormat2 sets)))) ∧
+    encodeLen21 firsts sets = .ok b.length := by
+  have h1 : orFormat1 sets < 256 := orFormat_lt _
+  have h2 : orFormat2 sets < 256 := orFormat_lt _
+  have hcl := Cov.encodeW_length firsts h
+  simp only [encode21, Cov.encodeLen_eq firsts h, Cov.encode_eq firsts h] at hb
+  cases ho : pairOffsets (orFormat1 sets) (orFormat2 sets) sets
+      (10 + 2 * sets.length + if Cov.fmt1Len firsts ≤ Cov.fmt2Len firsts then Cov.fmt1Len firsts
+        else Cov.fmt2Len firsts) with
+  | err e => rw [ho] at hb; simp at hb
+  | panic s => rw [ho] at hb; simp at hb
+  | ok offs =>
+    rw [ho] at hb
+    simp only [Outcome.ok.injEq] at hb
+    rw [← hcl] at ho
+    obtain ⟨hol, holt, htot⟩ := pairOffsets_spec _ _ _ _ _ ho
+    -- the coverage offset and the count fit 16 bits
+    have hc : 10 + 2 * sets.length < 65536 := by
+      cases sets with
+      | nil => simp
+      | cons s ss => have := htot (by simp); omega
+    rw [w16_of_lt hc, w16_of_lt (by omega)] at hb
+    -- everything as one word list
+    have hbw : b = wordsToBytes ((1 :: (10 + 2 * sets.length) :: orFormat1 sets :: orFormat2 sets ::
+        sets.length :: offs) ++ (Cov.encodeW firsts ++
+          sets.flatMap (pairSetWords (orFormat1 sets) (orFormat2 sets)))) := by
+      rw [← hb]
+      show _ = wordsToBytes (([1, 10 + 2 * sets.length, orFormat1 sets, orFormat2 sets, sets.length] ++ offs) ++
+        (Cov.encodeW firsts ++ sets.flatMap (pairSetWords (orFormat1 sets) (orFormat2 sets))))
+      simp only [wordsToBytes_append, List.append_assoc]
+    have hPlt : ∀ w ∈ (1 :: (10 + 2 * sets.length) :: orFormat1 sets :: orFormat2 sets ::
+        sets.length :: offs) ++ Cov.encodeW firsts, w < 65536 := by
+      intro w hw
+      simp only [List.mem_append, List.mem_cons] at hw
+      rcases hw with (rfl | rfl | rfl | rfl | rfl | hw) | hw
+      · decide
+      · omega
+      · omega
+      · omega
+      · omega
+      · exact holt w hw
+      · exact Cov.encodeW_lt firsts h w hw
+    have hPSlt : ∀ w ∈ sets.flatMap (pairSetWords (orFormat1 sets) (orFormat2 sets)), w < 65536 := by
+      intro w hw
+      rw [List.mem_flatMap] at hw
+      obtain ⟨s, hs, hw⟩ := hw
+      exact pairSetWords_lt _ _ s (hS s hs).1 w hw
+    have hall : ∀ w ∈ (1 :: (10 + 2 * sets.length) :: orFormat1 sets :: orFormat2 sets ::
+        sets.length :: offs) ++ (Cov.encodeW firsts ++
+          sets.flatMap (pairSetWords (orFormat1 sets) (orFormat2 sets))), w < 65536 := by
+      intro w hw
+      rw [← List.append_assoc, List.mem_append] at hw
+      rcases hw with hw | hw
+      · exact hPlt w hw
+      · exact hPSlt w hw
+    constructor
+    · have hw : bytesToWords b = 1 :: (10 + 2 * sets.length) :: orFormat1 sets :: orFormat2 sets ::
+          sets.length :: (offs ++ (Cov.encodeW firsts ++
+            sets.flatMap (pairSetWords (orFormat1 sets) (orFormat2 sets)))) := by
+        rw [hbw, bytesToWords_wordsToBytes _ hall]
+        rfl
+      -- the coverage table sits behind the header and the offsets
+      have hdrop : b.drop (10 + 2 * sets.length) = wordsToBytes (Cov.encodeW firsts ++
+          sets.flatMap (pairSetWords (orFormat1 sets) (orFormat2 sets))) := by
+        have e : 10 + 2 * sets.length = 2 * (1 :: (10 + 2 * sets.length) :: orFormat1 sets ::
+            orFormat2 sets :: sets.length :: offs).length := by
+          simp only [List.length_cons, hol]; omega
+        have := drop_wordsToBytes_append' (1 :: (10 + 2 * sets.length) :: orFormat1 sets ::
+            orFormat2 sets :: sets.length :: offs) (Cov.encodeW firsts ++
+          sets.flatMap (pairSetWords (orFormat1 sets) (orFormat2 sets))) []
+        simp only [List.append_nil] at this
+        rw [hbw]
+        generalize 10 + 2 * sets.length = off at e ⊢
+        rw [e]
+        exact this
+      have hrd : Cov.read (b.drop (10 + 2 * sets.length)) = .ok firsts.zipIdx := by
+        unfold Cov.read
+        rw [hdrop, bytesToWords_wordsToBytes _ (by
+          intro w hw
+          rw [List.mem_append] at hw
+          rcases hw with hw | hw
+          · exact Cov.encodeW_lt firsts h w hw
+          · exact hPSlt w hw)]
+        exact Cov.readW_encodeW_append firsts h _
+      have hlen : ¬ (offs ++ (Cov.encodeW firsts ++
+          sets.flatMap (pairSetWords (orFormat1 sets) (orFormat2 sets)))).length < sets.length := by
+        simp [hol]
+      have htake : (offs ++ (Cov.encodeW firsts ++
+          sets.flatMap (pairSetWords (orFormat1 sets) (orFormat2 sets)))).take sets.length = offs := by
+        rw [← hol]; exact List.take_left
+      -- the pair sets
+      have hps := readPairSets_spec _ _ h1 h2 [] sets
+        ((1 :: (10 + 2 * sets.length) :: orFormat1 sets :: orFormat2 sets :: sets.length :: offs) ++
+          Cov.encodeW firsts) [] offs hPlt (by simp) hS
+        (by
+          have e : 2 * ((1 :: (10 + 2 * sets.length) :: orFormat1 sets :: orFormat2 sets ::
+              sets.length :: offs) ++ Cov.encodeW firsts).length =
+              10 + 2 * sets.length + 2 * (Cov.encodeW firsts).length := by
+            simp only [List.length_append, List.length_cons, hol]; omega
+          rw [e]; exact ho)
+      simp only [List.append_nil, List.append_assoc] at hps
+      rw [← hbw] at hps
+      simp only [readSubtable, hw, read21, hlen, if_false, hrd, htake]
+      have hz : ¬ offs.length > firsts.zipIdx.length := by simp [hol, hl]
+      have hz2 : ¬ offs.length < firsts.zipIdx.length := by simp [hol, hl]
+      simp only [hz, hz2, if_false, hps]
+      simp
+    · simp only [encodeLen21, Cov.encodeLen_eq firsts h, ← hcl]
+      rw [hbw, length_wordsToBytes]
+      congr 1
+      have hps : ∀ (l : List PairSet), 2 * (l.flatMap (pairSetWords (orFormat1 sets) (orFormat2 sets))).length =
+          (l.map (pairSetLen (orFormat1 sets) (orFormat2 sets))).sum := by
+        intro l
+        induction l with
+        | nil => rfl
+        | cons s l ih =>
+          simp only [List.flatMap_cons, List.length_append, List.map_cons, List.sum_cons]
+          have := pairSetWords_length _ _ h1 h2 s
+          omega
+      have := hps sets
+      simp only [List.length_append, List.length_cons, hol]
+      omega
+
+theorem encode21_not_err (firsts : List Nat) (sets : List PairSet) (e : String) :
+    encode21 firsts sets ≠ .err e := by
+  simp only [encode21]
+  cases Cov.encodeLen firsts <;> cases Cov.encode firsts <;> simp
+  rename_i n c
+  have : ∀ (ss : List PairSet) (t : Nat) (e' : String), pairOffsets (orFormat1 sets) (orFormat2 sets) ss t ≠ .err e' := by
+    intro ss
+    induction ss with
+    | nil => intro t e'; simp [pairOffsets]
+    | cons s ss ih =>
+      intro t e'
+      simp only [pairOffsets]
+      split
+      · simp
+      · cases h : pairOffsets (orFormat1 sets) (orFormat2 sets) ss (t + pairSetLen (orFormat1 sets) (orFormat2 sets) s) with
+        | ok r => simp
+        | err e2 => exact absurd h (ih _ e2)
+        | panic s' => simp
+  cases h : pairOffsets (orFormat1 sets) (orFormat2 sets) sets (10 + 2 * sets.length + n) with
+  | ok r => simp
+  | err e' => exact absurd h (this _ _ e')
+  | panic s => simp
 
 end SfntV.Otl.Gpos
